@@ -217,7 +217,7 @@ func execTopology(st *State, line string) Result {
 				snaps, err = w.store.ReadSnapshotsSinceTopology(uint64(off), uint64(count))
 			}
 			snaps2, txs, err2 := w.store.ReadSnapshotWithTransactionsSinceTopology(uint64(off), uint64(count))
-			if (err == nil) != (err2 == nil) || (err == nil && (showList(snaps) != showList(snaps2) || len(txs) != len(snaps2))) {
+			if t[0] == "since" && ((err == nil) != (err2 == nil) || (err == nil && (showList(snaps) != showList(snaps2) || len(txs) != len(snaps2)))) {
 				fail("list-variants-differ", "ReadSnapshotsSinceTopology and ReadSnapshotWithTransactionsSinceTopology disagree")
 			}
 			if err != nil {
